@@ -127,7 +127,8 @@ def run_session(scn, sched, keep_sim=True, max_decisions=None, extra_setup=None)
     netw = net.Network(net.NetConfig(nrng, ncfg.get('chunk', 'whole'),
                                      ncfg.get('latency', 'const'),
                                      ncfg.get('base_latency', 0.001),
-                                     ncfg.get('short_send', 0.0)))
+                                     ncfg.get('short_send', 0.0),
+                                     ncfg.get('rst', False)))
     core.set_current(sim)
     net.set_network(netw)
     mods['random'].reseed(scn.get('decision_seed', 0))
